@@ -120,6 +120,19 @@ EMPHASIS['11'] = EMPHASIS['8'] + (' (Three previous rounds already worked under 
                                      'invisible to ordinary small-sample use.')
 
 
+EMPHASIS['12'] = EMPHASIS['8'] + (' (Four previous rounds already worked under this rule; the list below includes '
+                                     'their edits.) In addition, this time prefer one of: (1) TWO PUBLIC ROUTES to the same '
+                                     'result that stop agreeing (a property next to a getter, a function next to a method, a '
+                                     'value returned next to the same value written to a file or cached on an attribute, a '
+                                     'second call with equivalent arguments given in another form); (2) STATE ACROSS CALLS: '
+                                     'something remembered between two calls on the same object or in the same process '
+                                     '(a cache keyed too coarsely, a default mutated, a buffer reused, an attribute updated '
+                                     'too early or not at all) so that only the second or third call is wrong; (3) an ERROR '
+                                     'PATH: an input the statement says is rejected / tolerated, right next to a legal '
+                                     'input that must keep working. Both changes must still be invisible to ordinary '
+                                     'single-call use on small inputs.')
+
+
 def touched_functions(pid):
     """Function / class names that appear in the hunk headers of the earlier patches of a property."""
     names = {}
@@ -174,7 +187,7 @@ def main():
             what = re.sub(r'^#\s*', '', m.get('what', ''))
             earlier.append('- %s: %s  %s' % (', '.join(m.get('files_changed', [])), what, notes))
         emphasis = EMPHASIS.get(rnd, EMPHASIS['default'])
-        if rnd in ('8', '9', '10', '11'):
+        if rnd in ('8', '9', '10', '11', '12'):
             tf = touched_functions(pid)
             emphasis += ' Already edited: ' + '; '.join(
                 '%s: %s' % (f, ', '.join(sorted(v))) for f, v in sorted(tf.items())) + '.'
